@@ -158,6 +158,7 @@ package geojson
 //@   stmt polygon.go:"g.base = *poly" assert PExt: ringOK(geometry.polyExt(poly))
 //@   stmt polygon.go:"g.base = *poly" assert PHoles: forall h int :: (0 <= h && h < geometry.polyNHoles(poly)) ==> ringOK(geometry.polyHole(poly, h))
 //@   stmt polygon.go:"o = &g" assert GExt: geometry.polyExt(g.base) == geometry.polyExt(poly) && geometry.polyNHoles(g.base) == geometry.polyNHoles(poly) && (forall h int :: geometry.polyHole(g.base, h) == geometry.polyHole(poly, h))
+//@   stmt polygon.go:"o = NewRect(geometry.Rect{" assert RectShortcut: len(holes) == 0 && len(exterior) == 5 && extra == nil && geometry.ptAt(exterior,0).X < geometry.ptAt(exterior,2).X && geometry.ptAt(exterior,0).Y < geometry.ptAt(exterior,2).Y   // C08: the Rect representation is chosen only for a hole-free, extra-free 5-position ring with Min < Max
 //@   stmt polygon.go:"o = &g" assert GHoles: holesOK(g.base)
 //@   stmt polygon.go:"o = &g" use polyShapeCopy(poly, g.base)
 //@   stmt polygon.go:"o = &g" assert GShape: geometry.PolyShape(g.base)
@@ -215,7 +216,7 @@ package geojson
 //@ func parseJSONMultiLineString
 //@   props C05 C07 C08
 //@   arith order
-//@   only post. iter. inv. assert.   // collection invariants of the children (CollKidsInv = ObjInv) are domain-restricted: preconditions of parseInitRectIndex are not discharged
+//@   only post. iter. inv. assert. safe.   // collection invariants of the children (CollKidsInv = ObjInv) are domain-restricted: preconditions of parseInitRectIndex are not discharged
 //@   dead cover.ret3
 //@   entry use rootGlobalsInit()
 //@   requires keys != nil && opts != nil
@@ -233,7 +234,7 @@ package geojson
 //@ func parseJSONMultiPolygon
 //@   props C05 C07 C08
 //@   arith order
-//@   only post. iter. inv. assert.   // collection invariants of the children (CollKidsInv = ObjInv) are domain-restricted: preconditions of parseInitRectIndex are not discharged
+//@   only post. iter. inv. assert. safe.   // collection invariants of the children (CollKidsInv = ObjInv) are domain-restricted: preconditions of parseInitRectIndex are not discharged
 //@   dead cover.ret3
 //@   entry use rootGlobalsInit()
 //@   requires keys != nil && opts != nil
@@ -259,7 +260,7 @@ package geojson
 //@ func parseJSONGeometryCollection
 //@   props C05 C07 C08
 //@   arith order
-//@   only post. dec.   // collection invariants of the children (CollKidsInv = ObjInv) are domain-restricted: not established for arbitrary documents
+//@   only post. dec. safe.   // collection invariants of the children (CollKidsInv = ObjInv) are domain-restricted: not established for arbitrary documents
 //@   decreases len(keys.rGeometries.Raw) + 1 ; 0
 //@   dead cover.ret3
 //@   call 0 use forall r gjson.Result :: AGjsonSub(r, $idx)
@@ -274,7 +275,7 @@ package geojson
 //@ func parseJSONFeatureCollection
 //@   props C05 C07 C08
 //@   arith order
-//@   only post. dec.   // collection invariants of the children (CollKidsInv = ObjInv) are domain-restricted: not established for arbitrary documents
+//@   only post. dec. safe.   // collection invariants of the children (CollKidsInv = ObjInv) are domain-restricted: not established for arbitrary documents
 //@   decreases len(keys.rFeatures.Raw) + 1 ; 0
 //@   dead cover.ret3
 //@   call 0 use forall r gjson.Result :: AGjsonSub(r, $idx)
